@@ -103,6 +103,23 @@ def _k_time(c) -> CaseInfo:
     if ns % 10**9 == 0:
         g = LocalTimePattern.general_iso.format(lt)
         need(g == t.isoformat() and dt.time.fromisoformat(g) == t, "time/general", f"{g!r}")
+    # reduced-precision ISO forms: hh, hh:mm, and the shortest of the three that is exact
+    if ns % (3600 * 10**9) == 0:
+        h = LocalTimePattern.hour_iso.format(lt)
+        need(h == t.isoformat(timespec="hours") and dt.time.fromisoformat(h) == t, "time/hour_iso", f"{h!r}")
+        need(LocalTimePattern.hour_iso.parse(h).value == lt, "time/hour_iso-roundtrip")
+    if ns % (60 * 10**9) == 0:
+        hm = LocalTimePattern.hour_minute_iso.format(lt)
+        need(hm == t.isoformat(timespec="minutes") and dt.time.fromisoformat(hm) == t, "time/hour_minute_iso", f"{hm!r}")
+        need(LocalTimePattern.hour_minute_iso.parse(hm).value == lt, "time/hour_minute_iso-roundtrip")
+    vp = LocalTimePattern.variable_precision_iso.format(lt)
+    need(dt.time.fromisoformat(vp) == t, "time/variable_precision->stdlib", f"{vp!r}")
+    rv = LocalTimePattern.variable_precision_iso.parse(vp)
+    need(rv.success and rv.value == lt, "time/variable_precision-roundtrip", f"{vp!r}")
+    for tx in (t.isoformat(timespec="hours") if ns % (3600 * 10**9) == 0 else None, t.isoformat(timespec="minutes") if ns % (60 * 10**9) == 0 else None, t.isoformat()):
+        if tx is not None:
+            r3 = LocalTimePattern.variable_precision_iso.parse(tx)
+            need(r3.success and r3.value.nanosecond_of_day == (ns // 1000) * 1000, "time/stdlib->variable_precision", f"{tx!r}")
     return CaseInfo(frac != 0, "time:frac" if frac else "time:whole")
 
 
@@ -131,6 +148,20 @@ def _k_datetime(c) -> CaseInfo:
     if ns % 10**9 == 0:
         g = LocalDateTimePattern.general_iso.format(ldt)
         need(g == sd.isoformat(), "datetime/general", f"{g!r} vs {sd.isoformat()!r}")
+    if ns % (3600 * 10**9) == 0:
+        h = LocalDateTimePattern.date_hour_iso.format(ldt)
+        need(h == sd.isoformat(timespec="hours") and dt.datetime.fromisoformat(h) == sd, "datetime/date_hour_iso", f"{h!r}")
+        need(LocalDateTimePattern.date_hour_iso.parse(h).value == ldt, "datetime/date_hour_iso-roundtrip")
+    if ns % (60 * 10**9) == 0:
+        hm = LocalDateTimePattern.date_hour_minute_iso.format(ldt)
+        need(hm == sd.isoformat(timespec="minutes") and dt.datetime.fromisoformat(hm) == sd, "datetime/date_hour_minute_iso", f"{hm!r}")
+        need(LocalDateTimePattern.date_hour_minute_iso.parse(hm).value == ldt, "datetime/date_hour_minute_iso-roundtrip")
+    vp = LocalDateTimePattern.variable_precision_iso.format(ldt)
+    need(dt.datetime.fromisoformat(vp) == sd, "datetime/variable_precision->stdlib", f"{vp!r}")
+    rv = LocalDateTimePattern.variable_precision_iso.parse(vp)
+    need(rv.success and rv.value == ldt, "datetime/variable_precision-roundtrip", f"{vp!r}")
+    r3 = LocalDateTimePattern.variable_precision_iso.parse(sd.isoformat())
+    need(r3.success and pyo.ldt_total(r3.value) == (o - ORD_EPOCH) * DAY + (ns // 1000) * 1000, "datetime/stdlib->variable_precision", f"{sd.isoformat()!r}")
     # instant at the same UTC fields
     i = Instant._ctor(days=o - ORD_EPOCH, nano_of_day=ns)
     it = InstantPattern.extended_iso.format(i)
